@@ -17,6 +17,7 @@ SPEC = {
         'AITB.FLP.weak_duality_sound',
         'AITB.FLP.optimalPair_sound',
         'AITB.FLP.certified_minimal',
+        'AITB.FLP.farkas_sound',
         'AITB.FLP.veRows_sat',
         'AITB.FLP.removeLoop_rows',
         'AITB.FLP.removeLoop_graph',
@@ -88,6 +89,6 @@ SPEC = {
                     'tags strictly ascending, in range, non-empty; one value per joint value of a tag (shape of BasisFunction / BasisMatrix)',
                     'mdpLP theorems assume no basis/reward/back-projection entry in (0, 1e-6] (such entries are skipped by checkEqualSmall); the driver tags cases that violate it',
                     'objective and feasibility tolerances 1e-7 (relative to 1+|value|); FactoredLP instances with coefficients below 1e-5 and a gap below 1e-5 are skipped as ill-conditioned (lp_solve accuracy 5e-7)',
-                    'flat infeasibility of an MDP LP (possible only when the bases do not span the constants) is not certified: such cases are skipped'],
+                    'when the library reports "no solution" the driver accepts only with a Farkas certificate of flat infeasibility checked by farkasOk (farkas_sound)'],
     'trusted_base': ['GNU ld --wrap interception of add_constraint / set_obj / set_obj_fn / set_minim / set_maxim / set_unbounded / solve'],
 }
